@@ -13,7 +13,7 @@ from concurrent.futures import ThreadPoolExecutor
 VERIF = os.path.dirname(os.path.dirname(os.path.abspath(__file__)))
 REPO = os.environ.get("XV_REPO", "/repo")
 # where evidence/ and replays/ are written: /verif, unless a seed test (bin/seedtest) redirects them
-OUT = os.environ.get("XV_OUT") or os.path.dirname(os.path.dirname(os.path.abspath(__file__)))
+RESULT_ROOT = os.environ.get("XV_OUT") or os.path.dirname(os.path.dirname(os.path.abspath(__file__)))
 BUILD = os.environ.get("XV_BUILD", os.path.join(VERIF, "build"))
 OBJ = os.path.join(BUILD, "obj")
 OUT = os.path.join(BUILD, "out")
@@ -396,8 +396,8 @@ def write_evidence(prop, tier, seed, wall, coverage, violations, assumptions):
         "wall_s": round(float(wall), 3),
         "violations": int(violations),
     }
-    os.makedirs(os.path.join(OUT, "evidence"), exist_ok=True)
-    path = os.path.join(OUT, "evidence", prop + ".json")
+    os.makedirs(os.path.join(RESULT_ROOT, "evidence"), exist_ok=True)
+    path = os.path.join(RESULT_ROOT, "evidence", prop + ".json")
     tmp = path + ".tmp"
     with open(tmp, "w") as f:
         json.dump(ev, f, indent=1)
@@ -417,7 +417,7 @@ def tier_and_seed(argv_tier=None):
 
 
 def write_replay(prop, k, payload):
-    d = os.path.join(OUT, "replays")
+    d = os.path.join(RESULT_ROOT, "replays")
     os.makedirs(d, exist_ok=True)
     path = os.path.join(d, "%s-%d.json" % (prop, k))
     with open(path, "w") as f:
@@ -426,7 +426,7 @@ def write_replay(prop, k, payload):
 
 
 def clear_replays(prop):
-    d = os.path.join(OUT, "replays")
+    d = os.path.join(RESULT_ROOT, "replays")
     if os.path.isdir(d):
         for n in os.listdir(d):
             if n.startswith(prop + "-"):
